@@ -407,6 +407,37 @@ pub fn contention_game(rng: &mut Rng, fan: u32, depth: u32) -> T {
     go(rng, fan, depth, 0, 0, 0)
 }
 
+/// a matrix game played `rounds` times, both players seeing every finished round: the tree a
+/// player's sampled pass walks is as wide as her own action count at every level (what the
+/// thread split of the multi-threaded solvers needs before it hands anything to the pool)
+pub fn repeated_matrix(rng: &mut Rng, acts: u32, rounds: u32) -> T {
+    let m: Vec<Vec<f64>> = (0..acts).map(|_| (0..acts).map(|_| rng.unit() * 4.0 - 2.0).collect()).collect();
+    fn go(m: &Vec<Vec<f64>>, acts: u32, rounds: u32, r: u32, hist: u32, pay: f64) -> T {
+        if r >= rounds {
+            return T::Term(pay);
+        }
+        T::Player(
+            true,
+            hist,
+            (0..acts)
+                .map(|a| {
+                    (
+                        a,
+                        T::Player(
+                            false,
+                            hist,
+                            (0..acts)
+                                .map(|b| (b, go(m, acts, rounds, r + 1, (hist * acts + a) * acts + b + 1, pay + m[a as usize][b as usize] * (1.0 + r as f64))))
+                                .collect(),
+                        ),
+                    )
+                })
+                .collect(),
+        )
+    }
+    go(&m, acts, rounds, 0, 0, 0.0)
+}
+
 /// a lottery in front of a game: one chance outcome ends the game at once (a pass that draws it
 /// moves no regret at all), the other leads to a matrix game whose equilibrium is not uniform
 pub fn lottery(rng: &mut Rng) -> T {
